@@ -10,7 +10,6 @@ for _p in sorted(glob.glob(os.path.join(_here, "props", "C*.json"))):
 
 # properties not (yet) claimed, with the reason that goes into MANIFEST.not_applicable
 NOT_CLAIMED = {
-    "C13": "temporarily withdrawn: the wire model is being extended with the name-safety check that routeData gained with the C14 repair (the check raised a false alarm on prev/name values the server now refuses); theorems and harness exist (Props/C13.lean, component wire)",
     "C03": "check being built (abstract protocol model + end-to-end trace validation); the technique applies",
     "C16": "check being built (choreography model, regenerated channel facts, end-to-end stop runs); the technique applies",
 }
